@@ -690,4 +690,111 @@ def run (cfg : RunCfg) (fuel : Nat) (prog : Block) : Outcome N :=
   | .panic site st => .panic site st.out
   | .fuel => .fuelOut
 
+/-! ### Well-scoped annotations (the hypothesis of C04's dynamic theorem)
+
+A decidable structural check of an ANNOTATED program, evaluated by the driver (`ws` requests) on the
+real resolver's output: every variable reference / assignment target / `{name}` segment carries a
+`LocalId` that a lexically enclosing binder (block or parameter list) declares, every `make` one of
+its own block, every call of a user function a `FunctionId` that a lexically enclosing block
+defines, and along every lexical path the binders declare disjoint ids. -/
+
+/-- What a block or a parameter list declares: `LocalId`s and `FunctionId`s. -/
+structure Binder where
+  decls : List Nat
+  fnIds : List Nat
+
+/-- The `FunctionId`s of the definitions of a statement list (what `hoist` registers). -/
+def fnIdsOf : List Stmt → List Nat
+  | [] => []
+  | .fnDef _ _ _ _ (some i) _ _ :: rest => i :: fnIdsOf rest
+  | _ :: rest => fnIdsOf rest
+
+def Binder.ofStmts (ss : List Stmt) : Binder := ⟨declIds ss, fnIdsOf ss⟩
+def Binder.ofParams (ps : List Param) : Binder := ⟨ps.filterMap (·.bind), []⟩
+/-- The extra root scope of `run_inner` declares nothing. -/
+def Binder.root : Binder := ⟨[], []⟩
+
+/-- `l` is declared by a binder of the lexical context. -/
+def declared (Γ : List Binder) (l : Nat) : Bool := Γ.any (fun β => β.decls.contains l)
+def fnDeclared (Γ : List Binder) (i : Nat) : Bool := Γ.any (fun β => β.fnIds.contains i)
+
+def boundIn (Γ : List Binder) : Option Nat → Bool
+  | some l => declared Γ l
+  | none => false
+
+def fnBoundIn (Γ : List Binder) : Option Nat → Bool
+  | some i => fnDeclared Γ i
+  | none => false
+
+/-- The binding of a `make`: a local of the statement's own block. -/
+def headDecl : List Binder → Option Nat → Bool
+  | β :: _, some l => β.decls.contains l
+  | _, _ => false
+
+def headFn : List Binder → Option Nat → Bool
+  | β :: _, some i => β.fnIds.contains i
+  | _, _ => false
+
+/-- The binder declares nothing an enclosing binder declares. -/
+def freshIn (Γ : List Binder) (β : Binder) : Bool :=
+  β.decls.all (fun l => !declared Γ l) && β.fnIds.all (fun i => !fnDeclared Γ i)
+
+def wsSeg (Γ : List Binder) : Seg → Bool
+  | .lit _ => true
+  | .var _ b => boundIn Γ b
+
+mutual
+  def wsExpr (Γ : List Binder) : Expr → Bool
+    | .num _ _ | .bool _ _ | .null _ => true
+    | .str (.static _) _ => true
+    | .str (.interp segs) _ => segs.all (wsSeg Γ)
+    | .var _ b _ => boundIn Γ b
+    | .binary _ l r _ => wsExpr Γ l && wsExpr Γ r
+    | .unary _ x _ => wsExpr Γ x
+    | .array es _ => wsExprs Γ es
+    | .index a i _ _ => wsExpr Γ a && wsExpr Γ i
+    | .member o _ _ _ => wsExpr Γ o
+    | .call (.member obj _ _ _) args _ _ => wsExpr Γ obj && wsExprs Γ args
+    | .call (.var name _ _) args fn _ =>
+        wsExprs Γ args && ((GlobalB.ofName name).isSome || fnBoundIn Γ fn)
+    | .call _ args _ _ => wsExprs Γ args
+  def wsExprs (Γ : List Binder) : List Expr → Bool
+    | [] => true
+    | e :: es => wsExpr Γ e && wsExprs Γ es
+end
+
+mutual
+  /-- `Γ` includes the binder of the statement's own block (its head). -/
+  def wsStmt (Γ : List Binder) : Stmt → Bool
+    | .assign _ _ e b _ _ => wsExpr Γ e && headDecl Γ b
+    | .assignExisting _ _ e b _ _ => wsExpr Γ e && boundIn Γ b
+    | .assignIndex t e _ _ => wsExpr Γ t && wsExpr Γ e
+    | .ifS c t e _ _ => wsExpr Γ c && wsBlock Γ t && wsOptBlock Γ e
+    | .loop c b _ _ => wsExpr Γ c && wsBlock Γ b
+    | .block b _ _ => wsBlock Γ b
+    | .fnDef _ _ ps body fn _ _ =>
+        headFn Γ fn && ps.all (fun p => p.bind.isSome) && freshIn Γ (.ofParams ps) &&
+          wsBlock (.ofParams ps :: Γ) body
+    | .ret (some e) _ _ => wsExpr Γ e
+    | .ret none _ _ => true
+    | .brk _ _ => true
+    | .cont _ _ => true
+    | .expr e _ _ => wsExpr Γ e
+  def wsStmts (Γ : List Binder) : List Stmt → Bool
+    | [] => true
+    | s :: rest => wsStmt Γ s && wsStmts Γ rest
+  def wsBlock (Γ : List Binder) : Block → Bool
+    | .mk ss _ => freshIn Γ (.ofStmts ss) && wsStmts (.ofStmts ss :: Γ) ss
+  def wsOptBlock (Γ : List Binder) : Option Block → Bool
+    | none => true
+    | some b => wsBlock Γ b
+end
+
+/-- The hypothesis of the dynamic theorem, a decidable check of the annotated program: every
+reference is bound to a declaration of a lexically enclosing binder, ids are not re-used along a
+lexical path. -/
+def WellScoped (p : Block) : Prop := wsBlock [Binder.root] p = true
+
+instance (p : Block) : Decidable (WellScoped p) := inferInstanceAs (Decidable (_ = true))
+
 end NaijaVerif.Eval
